@@ -135,7 +135,9 @@ fn fill_raw_module(
 
     let raw_module = MDRawModule {
         base_of_image: mapping.start_address as u64,
-        size_of_image: mapping.size as u32,
+        // The field is 32 bits wide; an extent it cannot hold is recorded as the largest value
+        // rather than modulo 4 GiB.
+        size_of_image: u32::try_from(mapping.size).unwrap_or(u32::MAX),
         cv_record,
         module_name_rva: name_header.rva,
         version_info,
